@@ -982,10 +982,37 @@ func (e *Engine) apply(op Op) Result {
 			opts.Flags = txfile.Flag(op.Flags)
 			opts.MaxSize = op.MaxSize
 			opts.Prealloc = op.Prealloc
+		} else if op.MaxSize != 0 {
+			// a maximum size in the options WITHOUT FlagUpdMaxSize: the size stored in a bounded file wins
+			opts.MaxSize = op.MaxSize
 		}
 		e.File = nil
 		logAt := e.Disk.LogLen()
 		err := e.open(opts)
+		if op.Flags != 0 && e.Disk.Fault == nil {
+			// the transactions Open runs itself (new maximum size, release of the pages behind it) follow the commit
+			// discipline of the crash theorem: when a header page is written, every page write before it has been
+			// synced (monitor rule "header only when nothing is pending"), and the header write is synced before the
+			// next page write
+			ps := int64(e.Cfg.PageSize)
+			pending, hdrPending := 0, false
+			for k, d := range e.Disk.LogCopy()[logAt:] {
+				switch {
+				case d.Kind == simdisk.OpSync && !d.Failed:
+					pending, hdrPending = 0, false
+				case d.Kind == simdisk.OpWrite && !d.Failed && d.Off < 2*ps:
+					if pending > 0 {
+						e.fail("open-time-commit-discipline: Open with flags %d writes a header page (disk call #%d of the open) while %d page write(s) before it are not synced yet", op.Flags, k, pending)
+					}
+					hdrPending = true
+				case d.Kind == simdisk.OpWrite && !d.Failed:
+					if hdrPending {
+						e.fail("open-time-commit-discipline: Open with flags %d writes page %d (disk call #%d of the open) after a header page that is not synced yet", op.Flags, d.Off/ps, k)
+					}
+					pending++
+				}
+			}
+		}
 		if op.Kind == "reopen-under-faults" {
 			for _, d := range e.Disk.LogCopy()[logAt:] {
 				if d.Failed {
